@@ -243,8 +243,10 @@ func solve(asserts []*Term, opts ScriptOpts, timeoutSec int) solveResult {
 	return r
 }
 
-// portfolio: real-valued query on z3 (and z3-new after a delay) plus a small-lattice integer query that can only
-// contribute "sat" (a replayable counterexample). First definitive answer wins.
+// portfolio: the real-valued query on two solver configurations in parallel (z3 5.1 with the SMT core —
+// best on large near-propositional queries — and z3 4.8.12's default nlsat — best on conjunctive path queries),
+// plus a small-lattice integer query that can only contribute "sat" (a replayable counterexample).
+// First definitive answer wins; if both real queries give up, z3 5.1's default tactic is tried.
 func portfolio(realScript, intSmall string, timeoutSec int, noRetry bool) (solveResult, bool) {
 	ctx, cancel := context.WithCancel(context.Background())
 	defer cancel()
@@ -254,34 +256,23 @@ func portfolio(realScript, intSmall string, timeoutSec int, noRetry bool) (solve
 	}
 	ch := make(chan tagged, 4)
 	n := 0
-	launch := func(script, bin string, isInt bool, delay time.Duration) {
+	launch := func(script, bin string, isInt bool) {
 		n++
 		go func() {
-			if delay > 0 {
-				select {
-				case <-time.After(delay):
-				case <-ctx.Done():
-					ch <- tagged{solveResult{status: "cancelled"}, isInt}
-					return
-				}
-			}
 			ch <- tagged{runSolverCtx(ctx, script, timeoutSec, bin), isInt}
 		}()
 	}
-	launch(realScript, solverBin, false, 0)
-	alt := "z3-new"
-	if solverBin == "z3-new" {
-		alt = "z3"
+	smtScript := strings.Replace(realScript, "(check-sat)", "(check-sat-using smt)", 1)
+	launch(smtScript, "z3-new", false)
+	if !noRetry {
+		launch(realScript, "z3", false)
 	}
-	// the SMT core with incremental linearisation: far better than nlsat on near-propositional queries
-	launch(strings.Replace(realScript, "(check-sat)", "(check-sat-using smt)", 1), solverBin, false, 0)
 	if intSmall != "" {
-		launch(intSmall, solverBin, true, 0)
+		launch(intSmall, "z3", true)
 	}
 	var last solveResult
 	last.status = "unknown"
 	var totalMs int64
-	realDone := 0
 	for i := 0; i < n; i++ {
 		t := <-ch
 		totalMs += t.r.ms
@@ -291,24 +282,14 @@ func portfolio(realScript, intSmall string, timeoutSec int, noRetry bool) (solve
 		}
 		if !t.isInt && t.r.status != "cancelled" {
 			last = t.r
-			realDone++
-			if noRetry || realDone < 2 {
-				continue
-			}
-			// primary gave up: try the alternative solver binary before giving up
-			r2 := runSolverCtx(ctx, realScript, timeoutSec, alt)
-			totalMs += r2.ms
-			if r2.status == "sat" || r2.status == "unsat" {
-				r2.ms = totalMs
-				return r2, false
-			}
-			// last resort: a different variable order for nlsat
-			r3 := runSolverCtx(ctx, "(set-option :nlsat.shuffle_vars true)\n(set-option :nlsat.seed 7)\n"+realScript, timeoutSec, solverBin)
-			totalMs += r3.ms
-			if r3.status == "sat" || r3.status == "unsat" {
-				r3.ms = totalMs
-				return r3, false
-			}
+		}
+	}
+	if !noRetry {
+		r2 := runSolverCtx(ctx, realScript, timeoutSec, "z3-new")
+		totalMs += r2.ms
+		if r2.status == "sat" || r2.status == "unsat" {
+			r2.ms = totalMs
+			return r2, false
 		}
 	}
 	last.ms = totalMs
